@@ -395,7 +395,7 @@ func main() {
 	add("redis", []waiter{{"a", "current"}, {"a", "current"}}, seqs(onA, 1), []int{0, 1}, 1)
 	budget := 4 * time.Minute
 	if run.Thorough() {
-		budget = 25 * time.Minute
+		budget = 12 * time.Minute
 	}
 	sort.SliceStable(jobs, func(a, b int) bool {
 		return strings.HasPrefix(jobs[a].Name, "redis") && !strings.HasPrefix(jobs[b].Name, "redis")
